@@ -828,7 +828,7 @@ pub fn load_static_config(server: &mut Server, mut client: OptionalClient, path:
             gatherer: DefaultGatherer::default(),
             client_token: client.as_ref().map(|c| c.token),
         }),
-        Timeout::None,
+        Timeout::DefaultPerAnswer,
     );
 
     let new_config;
@@ -920,13 +920,14 @@ impl GatheringTask for LoadStaticConfigTask {
         self: Box<Self>,
         server: &mut Server,
         client: &mut OptionalClient,
-        _timed_out: bool,
+        timed_out: bool,
     ) {
-        // PRECONDITION: `load_static_config` scatters with `Timeout::None`,
-        // so the task is released only once every expected worker answered.
+        // PRECONDITION: the task is released once every expected worker
+        // answered, or when no worker answered for a whole worker timeout.
         debug_assert!(
-            self.gatherer.ok + self.gatherer.errors >= self.gatherer.expected_responses,
-            "LoadStaticConfigTask::on_finish: every expected worker must have answered (no timeout)"
+            timed_out
+                || self.gatherer.ok + self.gatherer.errors >= self.gatherer.expected_responses,
+            "LoadStaticConfigTask::on_finish: every expected worker must have answered unless timed out"
         );
         // Snapshot the failure tally before the loop consumes `responses`; the
         // failure-message list built below must contain exactly one entry per
@@ -953,7 +954,12 @@ impl GatheringTask for LoadStaticConfigTask {
             "LoadStaticConfig failure-message count must equal the gatherer error tally"
         );
 
-        if self.gatherer.errors > 0 {
+        if timed_out {
+            client.finish_failure(format!(
+                "\nloading static configuration timed out: {} OK, {} errors, {} expected",
+                self.gatherer.ok, self.gatherer.errors, self.gatherer.expected_responses,
+            ));
+        } else if self.gatherer.errors > 0 {
             client.finish_failure(format!(
                 "\nloading static configuration failed: {} OK, {} errors:\n- {}",
                 self.gatherer.ok,
@@ -3127,7 +3133,7 @@ pub fn load_state(server: &mut Server, mut client: OptionalClient, path: &str) {
             gatherer: DefaultGatherer::default(),
             path: path.to_owned(),
         }),
-        Timeout::None,
+        Timeout::DefaultPerAnswer,
     );
 
     let mut buffer = Buffer::with_capacity(200000);
@@ -3244,7 +3250,7 @@ impl GatheringTask for LoadStateTask {
         self: Box<Self>,
         server: &mut Server,
         client: &mut OptionalClient,
-        _timed_out: bool,
+        timed_out: bool,
     ) {
         let DefaultGatherer {
             ok,
@@ -3252,25 +3258,25 @@ impl GatheringTask for LoadStateTask {
             expected_responses,
             ..
         } = self.gatherer;
-        // PRECONDITION: `load_state` scatters with `Timeout::None`, so the
-        // task is only released once every worker has answered — never on a
-        // timeout. The ok/err tally must therefore cover the full expected
-        // fan-out.
+        // PRECONDITION: the task is released once every worker has answered
+        // every request, or when no worker answered for a whole worker
+        // timeout. Short of a timeout the ok/err tally covers the full
+        // expected fan-out.
         debug_assert!(
-            ok + errors >= expected_responses,
-            "LoadStateTask::on_finish: every expected worker must have answered (no timeout path)"
+            timed_out || ok + errors >= expected_responses,
+            "LoadStateTask::on_finish: every expected worker must have answered unless timed out"
         );
         server.update_counts();
-        let result = if errors == 0 {
+        let result = if errors == 0 && !timed_out {
             AuditResult::Ok
         } else {
             AuditResult::Err
         };
         // INVARIANT: the audit result matches the error tally — an `ok:N
-        // errors:0` line must be tagged Ok, any error tagged Err.
+        // errors:0` line must be tagged Ok, any error or timeout tagged Err.
         debug_assert_eq!(
             matches!(result, AuditResult::Ok),
-            errors == 0,
+            errors == 0 && !timed_out,
             "LoadStateTask audit result must agree with the worker error tally"
         );
         if let Some(client_ref) = client.as_deref() {
@@ -3285,6 +3291,12 @@ impl GatheringTask for LoadStateTask {
                 result,
                 AuditExtras::default(),
             );
+        }
+        if timed_out {
+            client.finish_failure(format!(
+                "loading state timed out: {ok} ok messages, {errors} errors, {expected_responses} expected"
+            ));
+            return;
         }
         if errors == 0 {
             client.finish_ok(format!(
